@@ -404,6 +404,8 @@ pub fn run(ctx: &Ctx) -> Outcome {
             }
         }
     }
+    // every short identifier (underscore-initial, letter-less, with digits) in every naming role
+    texts.extend(crate::c10::name_probe_files());
     use rayon::prelude::*;
     let text_results: Vec<(bool, Option<Finding>, Option<String>)> = texts
         .par_iter()
